@@ -17,13 +17,15 @@ META = {
     "trusted": "CrossHair/z3; MemVFS stands for the OS (stat/listdir/open answers); fault kinds are stat errnos, special-file modes and rejected names.",
     "explanation": "Fault enumeration with symbolic (position, kind) pairs through the real directory handlers over an in-memory VFS.",
     "assumptions": [
-        "an unservable entry is one whose stat fails (ENOENT/EACCES/ELOOP after listdir, e.g. dangling link or deleted file), a FIFO/socket, or a name the selector filter rejects ('..' inside the name)",
+        "an unservable entry is one whose stat fails (ENOENT/EACCES/ELOOP after listdir, e.g. dangling link or deleted file), a FIFO/socket, or a name the selector filter rejects ('..' inside the name); the first five kinds also with a dot-name (which the UMN handler opens as a link file; open() then fails with the same errno, ENXIO for special files)",
         "directory pool: up to 4 children (text file, sub-directory, HTML file, text file); other handler lists than the shipped default are outside this obligation",
     ],
 }
 
 NAMES = ["a.txt", "b", "c.html", "d.txt"]
-FAULTS = ["stat-ENOENT", "stat-EACCES", "stat-ELOOP", "fifo", "socket", "dotdot-name"]
+FAULTS = ["stat-ENOENT", "stat-EACCES", "stat-ELOOP", "fifo", "socket", "dotdot-name",
+          "dot-named stat-ENOENT", "dot-named stat-EACCES", "dot-named stat-ELOOP", "dot-named fifo", "dot-named socket"]
+NF = len(FAULTS)
 
 
 def _healthy_node(name):
@@ -45,6 +47,10 @@ def _build(n, faults):
         for (fi, fk) in faults:
             if fi == idx:
                 kind = fk
+        if kind >= 6:
+            # a dot-named unservable entry (an editor's `.#name` lock link, a socket `.s`): the UMN handler reads dot-files as link files
+            name = "." + name
+            kind -= 6
         if kind == 5:
             name = "x..y" + name
             nodes["/d/" + name] = mv.File(b"bad name\n")
@@ -145,7 +151,7 @@ def obligations(tier, seed):
                     id="C12.1-prepare[%s,n=%d,i=%d]" % ("UMN" if umn else "Dir", n, i),
                     body="harness.C12:body_prepare",
                     sig="umn: bool, n: int, i: int, f: int, j: int, g: int",
-                    pre=["umn == %s" % umn, "n == %d" % n, "i == %d" % i, "0 <= f <= 5", ("j == -1" if singles_only else "-1 <= j < n"), "j != i", "0 <= g <= 5"] + (["g == 0"] if singles_only else []),
+                    pre=["umn == %s" % umn, "n == %d" % n, "i == %d" % i, "0 <= f < %d" % NF, ("j == -1" if singles_only else "-1 <= j < n"), "j != i", "0 <= g < %d" % NF] + (["g == 0"] if singles_only else []),
                     desc="real %s.prepare over MemVFS: children %r, fault at position %d with symbolic kind, optional second fault at a symbolic "
                          "position with symbolic kind %r; listing succeeds and keeps every healthy child in the fault-free order"
                          % ("UMNDirHandler" if umn else "DirHandler", NAMES[:n], i, FAULTS),
@@ -157,9 +163,9 @@ def obligations(tier, seed):
         id="C12.2-protocols",
         body="harness.C12:body_protocol",
         sig="p: int, i: int, f: int",
-        pre=["0 <= p <= 6", "0 <= i < 3", "0 <= f <= 5"],
+        pre=["0 <= p <= 6", "0 <= i < 3", "0 <= f < %d" % NF],
         desc="each protocol's real handle() for the directory with one faulty child: success status and every healthy name in the response",
-        bounds="7 protocol forms x 3 positions x 6 fault kinds (symbolic), pool of 3",
+        bounds="7 protocol forms x 3 positions x %d fault kinds (symbolic), pool of 3" % NF,
         timeout=240,
         functions=["protocols.*.handle", "protocols.base.writedir"],
     ))
